@@ -527,4 +527,6 @@ def run(rep, prog, thorough):
     check_substructures(rep, prog)
     check_callout_rendering(rep, prog)
     check_registry(rep, prog)
+    from .c01 import check_callout_accounting, check_getcallouts_progress
+    check_callout_accounting(rep, prog, pfx="C03.R3.callouts-bounded-walk")
     rep.floor("obligations", len(rep.obligations), 40)
